@@ -21,6 +21,7 @@ type Loc struct {
 	Ghost   string
 	Global  string
 	MapAll  bool
+	Except  map[string]bool // with Heap == "*": heap arrays NOT covered
 }
 
 func (e *Engine) isFirstParty(fn *ssa.Function) bool {
@@ -311,8 +312,43 @@ func (e *Engine) havocAlive(st *State) {
 	st.typed = map[string]bool{}
 }
 
+func (e *Engine) havocAllHeapExcept(st *State, except map[string]bool) {
+	e.havocAlive(st)
+	if st.havocEpoch == 0 {
+		st.havocExcept = copyMap(except)
+	} else {
+		for k := range st.havocExcept {
+			if !except[k] {
+				delete(st.havocExcept, k)
+			}
+		}
+	}
+	st.havocEpoch++
+	names := map[string]bool{}
+	for n := range st.heap {
+		names[n] = true
+	}
+	for k := range e.d.seen {
+		if strings.HasPrefix(k, "c:H_") || strings.HasPrefix(k, "c:P_") || strings.HasPrefix(k, "c:E_") || strings.HasPrefix(k, "c:M_") {
+			names[strings.TrimPrefix(k, "c:")] = true
+		}
+	}
+	for _, n := range sortedKeys(names) {
+		if !except[n] {
+			e.heapHavoc(st, n)
+		}
+	}
+	for g, v := range st.globals {
+		if v.K == KTerm {
+			st.globals[g] = e.freshVal(st, "gl", v.Typ)
+		}
+	}
+}
+
 func (e *Engine) havocAllHeap(st *State) {
 	e.havocAlive(st)
+	st.havocExcept = map[string]bool{}
+	st.havocEpoch++
 	names := map[string]bool{}
 	for n := range st.heap {
 		names[n] = true
@@ -848,6 +884,25 @@ func (e *Engine) evalLoc(env *Env, x ast.Expr) []Loc {
 		env.fail("assigns: %s is not a location", x.Name)
 	case *ast.CallExpr:
 		// reachable(v): the object a (possibly boxed) pointer argument points to
+		if id, ok := x.Fun.(*ast.Ident); ok && id.Name == "allbut" {
+			// every heap location except the fields of the listed struct types
+			except := map[string]bool{}
+			for _, a := range x.Args {
+				t := e.resolveType(exprString(a), env.pkg)
+				if t == nil || !isStruct(t) {
+					env.fail("allbut: cannot resolve struct type %s", exprString(a))
+				}
+				// only the type's own (non-struct) fields: heaps of nested struct types are shared with other owners
+				stt := t.Underlying().(*types.Struct)
+				for i := 0; i < stt.NumFields(); i++ {
+					if !isStruct(stt.Field(i).Type()) {
+						h, _ := e.d.FieldHeap(t, i)
+						except[h] = true
+					}
+				}
+			}
+			return []Loc{{Heap: "*", Except: except}}
+		}
 		if id, ok := x.Fun.(*ast.Ident); ok && id.Name == "alloftype" && len(x.Args) == 1 {
 			t := e.resolveType(exprString(x.Args[0]), env.pkg)
 			if t == nil || !isStruct(t) {
@@ -1058,6 +1113,8 @@ func (e *Engine) havocLoc(st *State, l Loc) {
 			delete(st.globals, l.Global)
 			st.note("assigns on global " + l.Global + ": fresh value on next load not modelled precisely")
 		}
+	case l.Heap == "*" && l.Except != nil:
+		e.havocAllHeapExcept(st, l.Except)
 	case l.Heap == "*":
 		e.havocAllHeap(st)
 	case l.BaseFn != nil:
@@ -1122,6 +1179,10 @@ func (e *Engine) frameCond(st *State, name string, locs []Loc, cur, entry string
 	var rConds []string
 	var riConds []string
 	for _, l := range locs {
+		if l.Heap == "*" && l.Except != nil && !l.Except[name] {
+			rConds = append(rConds, "true")
+			continue
+		}
 		if l.Heap != name {
 			continue
 		}
@@ -1135,6 +1196,11 @@ func (e *Engine) frameCond(st *State, name string, locs []Loc, cur, entry string
 		}
 	}
 	aliveEntry := st.entry.alive
+	for _, c := range rConds {
+		if c == "true" {
+			return "true"
+		}
+	}
 	if len(riConds) > 0 && isNested {
 		ks := keySortOfArray(srt)
 		return fmt.Sprintf("(forall ((fr_r Ref) (fr_i %s)) (or (= (select (select %s fr_r) fr_i) (select (select %s fr_r) fr_i)) (>= (stamp fr_r) %s) %s))",
